@@ -9,4 +9,5 @@ let () =
   | _ :: "session" :: rest -> Cmd_session.run rest
   | _ :: "gsession" :: _ -> Cmd_session.grun ()
   | _ :: "lfdbt" :: rest -> Cmd_lfdbt.run rest
+  | _ :: "adapters" :: _ -> Cmd_adapters.run ()
   | _ -> prerr_endline "usage: fvm <layout|...>"; exit 2
